@@ -554,6 +554,48 @@ func (x *gen) adjacencyCase() sessCase {
 	return sessCase{kind: "operator-adjacency-in-function", maxLen: []int{0, 4000}[x.intn(2)], sessions: [][]string{st, {"zz = 2"}}, calls: calls}
 }
 
+// ---- functions made by macros: the template unquotes values computed at expansion time, so the stored body holds
+// literal nodes that never went through the parser; what is saved is their TEXT
+var unqVals = []string{"2+3", "-5", "0-7", "1000000*1000000", "9223372036854775807", "1<2", "2==3",
+	"360.0/2", "1.25*4", "2.0", "-3.0", "1e3", "0.0", "1.5*3", "0.1+0.2", "-2.25", "1/3.", "1e21", "2.5e-7",
+	"\"a\"+\"b\"", "\"q\\\"\\n\"", "7", "0"}
+var unqOps = []string{"/", "+", "*", "-", "==", "<", "%"}
+
+// macroFuncs: n groups of (macro, named function using it, lambda-making macro, lambda); returns statements and names
+func (x *gen) macroFuncs(n int) ([]string, []string) {
+	var st, names []string
+	for i := 0; i < n; i++ {
+		id := fmt.Sprint(x.intn(90) + 10)
+		v, op := unqVals[x.intn(len(unqVals))], unqOps[x.intn(len(unqOps))]
+		switch x.intn(4) {
+		case 0:
+			st = append(st, "mm"+id+" = macro(x) { quote(unquote(x) "+op+" unquote("+v+")) }", "func mf"+id+"(d) { mm"+id+"(d) }")
+			names = append(names, "mf"+id)
+		case 1:
+			st = append(st, "mk"+id+" = macro() { quote(v => v "+op+" unquote("+v+")) }", "ml"+id+" = mk"+id+"()")
+			names = append(names, "ml"+id)
+		case 2:
+			v2 := unqVals[x.intn(len(unqVals))]
+			st = append(st, "mm"+id+" = macro(x) { quote([unquote(x), unquote("+v+"), {unquote("+v2+"): unquote(x) "+op+" unquote("+v+")}]) }", "func mf"+id+"(d) { mm"+id+"(d) }")
+			names = append(names, "mf"+id)
+		default:
+			st = append(st, "mk"+id+" = macro() { quote(func(v) { w = unquote("+v+"); w "+op+" v }) }", "ml"+id+" = mk"+id+"()")
+			names = append(names, "ml"+id)
+		}
+	}
+	return st, names
+}
+
+func (x *gen) macroCase() sessCase {
+	st, names := x.macroFuncs(1 + x.intn(3))
+	var calls []string
+	for _, n := range names {
+		calls = append(calls, n+"(90)", n+"(1)", n+"(2.5)")
+	}
+	st = append(st, "zz = 1")
+	return sessCase{kind: "function-made-by-macro", maxLen: []int{0, 4000}[x.intn(2)], sessions: [][]string{st, {"zz = 2"}}, calls: calls}
+}
+
 func (x *gen) stringFuncCase() sessCase {
 	var st, calls []string
 	st = append(st, "aa = "+x.str())
@@ -579,6 +621,11 @@ var sessionCorpus = []sessCase{
 	// a binary - or + followed by the prefix -- / ++ / - / +, postfix followed by binary
 	{"operator-adjacency-in-function", 4000, [][]string{{"func sub(a,b){a - --b}", "func add(a,b){a + ++b}", "lam = (a,b) => a*2 - --b", "m2 = (a,b) => a - -b", "pf = (a,b) => a++ + b", "nn = (a,b) => a - -(-b)"}, {"zz = 1"}},
 		[]string{"sub(5,3)", "add(5,3)", "lam(5,3)", "m2(5,3)", "pf(5,3)", "nn(5,3)"}},
+	// functions made by macros whose templates unquote computed values (integral and other floats, integers, booleans)
+	{"function-made-by-macro", 4000, [][]string{{"halfturns = macro(x) { quote(unquote(x) / unquote(360.0 / 2)) }", "func half(d) { halfturns(d) }",
+		"mkratio = macro() { quote(v => v / unquote(1.25 * 4)) }", "ratio = mkratio()", "mki = macro() { quote(v => v / unquote(2+3)) }", "ri = mki()",
+		"mkb = macro() { quote(v => [v, unquote(1<2), unquote(1.5*3)]) }", "rb = mkb()"}, {"zz = 1"}},
+		[]string{"half(90)", "ratio(1)", "ri(1)", "ri(2.5)", "rb(1)"}},
 	// aliases
 	{"alias-name-redefined", 0, [][]string{{"func f(x){1}", "k = f", "func f(x){2}"}}, []string{"f(0)", "k(0)"}},
 	{"alias-name-redefined", 0, [][]string{{"func f(x){1}", "a = f", "func f(x){2}"}}, []string{"f(0)", "a(0)"}},
@@ -612,6 +659,7 @@ func runSessions(c *Ctx, x *gen) {
 		checkSessions(c, x.mutationCase())
 		checkSessions(c, x.stringFuncCase())
 		checkSessions(c, x.adjacencyCase())
+		checkSessions(c, x.macroCase())
 	}
 	os.Remove(".gr")
 	os.Remove("st.gr")
